@@ -44,6 +44,8 @@ type Target struct {
 	Env     map[string]EnvSpec `json:"env,omitempty"`
 	Skip    []string           `json:"skip,omitempty"`   // statements whose text starts with one of these are ignored (logging, hashing, error plumbing)
 	Option  bool               `json:"option,omitempty"` // fragment: a bare return inside it yields None, falling through yields Some outputs
+	Body    bool               `json:"body,omitempty"`   // fragment = the whole body of a function without result (Free = variables live on entry)
+	Marks   map[string]string  `json:"marks,omitempty"`  // "f" -> v: a statement `go f(...)` / `f(...)` is the assignment v = true (v a Free bool): which side effects a path triggers
 	IfCond  string             `json:"ifcond,omitempty"` // translate the condition of the (first) if statement of the function whose condition reads exactly so
 	Doc     string             `json:"doc,omitempty"`
 }
@@ -424,6 +426,28 @@ var nFields = map[string]int{}
 
 func (g *gen) retOf(name string) string { return retTypes[name] }
 
+// marks of the target being translated (call text -> marker variable), for assignedIn
+var curMarks map[string]string
+var curFset *token.FileSet
+
+// markOf: the marker variable a `go f(...)` / `f(...)` statement stands for, if configured
+func markOf(fset *token.FileSet, s ast.Stmt) (string, bool) {
+	var call *ast.CallExpr
+	switch x := s.(type) {
+	case *ast.GoStmt:
+		call = x.Call
+	case *ast.ExprStmt:
+		call, _ = x.X.(*ast.CallExpr)
+	}
+	if call == nil || curMarks == nil {
+		return "", false
+	}
+	var b bytes.Buffer
+	printer.Fprint(&b, fset, call.Fun)
+	v, ok := curMarks[b.String()]
+	return v, ok
+}
+
 func assignedIn(stmts []ast.Stmt, outer map[string]string) []string {
 	seen := map[string]bool{}
 	var out []string
@@ -440,6 +464,10 @@ func assignedIn(stmts []ast.Stmt, outer map[string]string) []string {
 			local[k] = true
 		}
 		for _, s := range ss {
+			if v, ok := markOf(curFset, s); ok {
+				add(v)
+				continue
+			}
 			switch x := s.(type) {
 			case *ast.AssignStmt:
 				for _, l := range x.Lhs {
@@ -530,6 +558,12 @@ func (g *gen) stmts(ss []ast.Stmt, depth int, final func() string) string {
 		if strings.HasPrefix(stxt, p) {
 			return g.stmts(rest, depth, final)
 		}
+	}
+	if v, ok := markOf(g.fset, s); ok {
+		if g.vars[v] != "bool" {
+			fail(pos, "marker %s must be a free bool variable", v)
+		}
+		return "let " + v + " := true in\n" + ind(depth) + g.stmts(rest, depth, final)
 	}
 	switch x := s.(type) {
 	case *ast.ExprStmt:
@@ -778,6 +812,35 @@ func (g *gen) findFragment(list []ast.Stmt, from string) []ast.Stmt {
 	return nil
 }
 
+// reassigned: some function of the package assigns (or takes the address of, or ++/--) the package-level name
+func reassigned(files []*ast.File, name string) bool {
+	found := false
+	for _, f := range files {
+		ast.Inspect(f, func(n ast.Node) bool {
+			switch x := n.(type) {
+			case *ast.AssignStmt:
+				if x.Tok != token.DEFINE {
+					for _, l := range x.Lhs {
+						if id, ok := l.(*ast.Ident); ok && id.Name == name {
+							found = true
+						}
+					}
+				}
+			case *ast.IncDecStmt:
+				if id, ok := x.X.(*ast.Ident); ok && id.Name == name {
+					found = true
+				}
+			case *ast.UnaryExpr:
+				if id, ok := x.X.(*ast.Ident); ok && x.Op == token.AND && id.Name == name {
+					found = true
+				}
+			}
+			return !found
+		})
+	}
+	return found
+}
+
 func main() {
 	repo := flag.String("repo", "/repo", "repository root")
 	cfgPath := flag.String("config", "targets.json", "targets")
@@ -864,6 +927,8 @@ func main() {
 			if fd == nil {
 				panic(failure{fmt.Sprintf("%s: function %s (receiver %q) not found", t.File, t.Func, t.Recv)})
 			}
+			curMarks = t.Marks
+			curFset = fset
 			g := &gen{fset: fset, cfg: &cfg, t: t, fields: map[string]string{}, vars: map[string]string{}, usedF: map[string]bool{}, envP: map[string]string{}, defs: defs}
 			if fd.Recv != nil && len(fd.Recv.List[0].Names) == 1 {
 				g.recv = fd.Recv.List[0].Names[0].Name
@@ -872,7 +937,7 @@ func main() {
 			for _, pf := range pkgFiles[dir] {
 				for _, d := range pf.Decls {
 					gd, ok := d.(*ast.GenDecl)
-					if !ok || gd.Tok != token.CONST {
+					if !ok || (gd.Tok != token.CONST && gd.Tok != token.VAR) {
 						continue
 					}
 					for _, sp := range gd.Specs {
@@ -881,7 +946,19 @@ func main() {
 							continue
 						}
 						for i, n := range vs.Names {
-							if lit, ok := vs.Values[i].(*ast.BasicLit); ok && lit.Kind == token.INT {
+							v := vs.Values[i]
+							if gd.Tok == token.VAR {
+								// a package-level `var x = T(literal)` that no non-test file of the package assigns is a constant
+								call, ok := v.(*ast.CallExpr)
+								if !ok || len(call.Args) != 1 || reassigned(pkgFiles[dir], n.Name) {
+									continue
+								}
+								if _, ok := cfg.Types[g.text(call.Fun)]; !ok {
+									continue
+								}
+								v = call.Args[0]
+							}
+							if lit, ok := v.(*ast.BasicLit); ok && lit.Kind == token.INT {
 								g.consts[n.Name] = strings.ReplaceAll(lit.Value, "_", "")
 							}
 						}
@@ -921,7 +998,13 @@ func main() {
 			}
 			var fparams []param
 			body := fd.Body.List
-			if t.From == "" {
+			if t.Body {
+				for _, fr := range t.Free {
+					n, c := splitPC(fr)
+					g.vars[n] = c
+					fparams = append(fparams, param{n, c})
+				}
+			} else if t.From == "" {
 				for _, p := range fd.Type.Params.List {
 					c, ok := g.classOpt(p.Type)
 					if !ok {
@@ -990,7 +1073,7 @@ func main() {
 				term = e
 				retTypes[t.Name] = "bool"
 				body = []ast.Stmt{&ast.ExprStmt{X: found}}
-			} else if t.From == "" {
+			} else if t.From == "" && !t.Body {
 				term = g.stmts(body, 1, func() string {
 					fail(fset.Position(fd.End()), "control reaches the end of %s without a return", t.Func)
 					return ""
@@ -1039,7 +1122,7 @@ func main() {
 			var src bytes.Buffer
 			if t.IfCond != "" {
 				src.WriteString("if " + t.IfCond + " { ... }")
-			} else if t.From == "" {
+			} else if t.From == "" && !t.Body {
 				printer.Fprint(&src, fset, fd)
 			} else {
 				for _, s := range body {
@@ -1051,6 +1134,9 @@ func main() {
 			fmt.Fprintf(b, "(* %s — %s %s", t.Name, t.File, t.Func)
 			if t.From != "" {
 				fmt.Fprintf(b, " (statements %s .. %s)", t.From, t.To)
+			}
+			if t.Body {
+				fmt.Fprintf(b, " (whole body)")
 			}
 			fmt.Fprintf(b, "; source sha256 %x\n", h[:8])
 			for _, l := range strings.Split(strings.TrimRight(src.String(), "\n"), "\n") {
